@@ -2655,10 +2655,17 @@ unsafe impl<'a, const MIN_ALIGN: usize> Allocator for &'a Bump<MIN_ALIGN> {
         old_layout: Layout,
         new_layout: Layout,
     ) -> Result<NonNull<[u8]>, AllocError> {
-        let r = Bump::<MIN_ALIGN>::shrink(self, ptr, old_layout, new_layout);
         #[cfg(bumpalo_verif)]
-        crate::__verif::api(crate::__verif::Api::realloc(false, &r, ptr.as_ptr() as usize, old_layout, new_layout), *self);
-        r.map(|p| unsafe {
+        {
+            let r = Bump::<MIN_ALIGN>::shrink(self, ptr, old_layout, new_layout);
+            crate::__verif::api(crate::__verif::Api::realloc(false, &r, ptr.as_ptr() as usize, old_layout, new_layout), *self);
+            return r
+                .map(|p| unsafe { NonNull::new_unchecked(ptr::slice_from_raw_parts_mut(p.as_ptr(), new_layout.size())) })
+                .map_err(|_| AllocError);
+        }
+        #[cfg(not(bumpalo_verif))]
+        Bump::<MIN_ALIGN>::shrink(self, ptr, old_layout, new_layout)
+            .map(|p| unsafe {
                 NonNull::new_unchecked(ptr::slice_from_raw_parts_mut(p.as_ptr(), new_layout.size()))
             })
             .map_err(|_| AllocError)
@@ -2671,10 +2678,17 @@ unsafe impl<'a, const MIN_ALIGN: usize> Allocator for &'a Bump<MIN_ALIGN> {
         old_layout: Layout,
         new_layout: Layout,
     ) -> Result<NonNull<[u8]>, AllocError> {
-        let r = Bump::<MIN_ALIGN>::grow(self, ptr, old_layout, new_layout);
         #[cfg(bumpalo_verif)]
-        crate::__verif::api(crate::__verif::Api::realloc(true, &r, ptr.as_ptr() as usize, old_layout, new_layout), *self);
-        r.map(|p| unsafe {
+        {
+            let r = Bump::<MIN_ALIGN>::grow(self, ptr, old_layout, new_layout);
+            crate::__verif::api(crate::__verif::Api::realloc(true, &r, ptr.as_ptr() as usize, old_layout, new_layout), *self);
+            return r
+                .map(|p| unsafe { NonNull::new_unchecked(ptr::slice_from_raw_parts_mut(p.as_ptr(), new_layout.size())) })
+                .map_err(|_| AllocError);
+        }
+        #[cfg(not(bumpalo_verif))]
+        Bump::<MIN_ALIGN>::grow(self, ptr, old_layout, new_layout)
+            .map(|p| unsafe {
                 NonNull::new_unchecked(ptr::slice_from_raw_parts_mut(p.as_ptr(), new_layout.size()))
             })
             .map_err(|_| AllocError)
